@@ -45,6 +45,7 @@ structure Cfg where
   logoutUri : Str → Bool := fun _ => false   -- the client registered a back- or front-channel logout URI
   refreshLifetime : Nat := 86400      -- the refresh-token handler's lifetime (`_mint_token` falls back to it for a
                                       -- grant without usage rules for the class: an ExchangeGrant)
+  denyUnknown : Str → Bool := fun _ => false   -- deny_unknown_scopes: the client's own setting, else the provider's preference
 
 structure Tok where
   id : Nat
@@ -290,6 +291,9 @@ def configuredScope (allowedInRecord : Option (List Str)) : List Str := allowedI
 def step (cfg : Cfg) (s : St) : Op → St × Out
   | .tick n => ({ s with now := s.now + n }, .ok)
   | .authorize user client scope redirect =>
+    -- check_unknown_scopes_policy: with deny_unknown_scopes a request naming a scope outside what the client may use is refused as a
+    -- whole (UnAuthorizedClientScope out of process_request), before anything is created
+    if cfg.denyUnknown client && !(decide (filterScopes cfg client scope = scope)) then (s, .err "unauthorized_scope") else
     let g := mkGrant cfg s user client scope redirect
     let s1 : St := { s with next := s.next + 1, grants := s.grants ++ [g] }
     match mint cfg s1 g .code none none with
